@@ -27,6 +27,8 @@ SPEC = {
 }
 SPEC['explanation'] += " T25.modtable: every table of modules left out of the printed exception type contains '__main__' and 'builtins', and the sibling tables agree up to the Python 2 names."
 SPEC['decided'] += ['unprefixed-module tables agree']
+SPEC['explanation'] += " T25.line: every call point is built with a deferred source line on every path. T9.trimmsg: ExceptionInfo never strips the rendered '<type>: <message>' text."
+SPEC['decided'] += ['deferred line on every path', 'rendered message not stripped']
 MANIFEST = {
     'technique': 'template/regex skeleton extraction and comparison (writer vs reader tables); must-pass-through and guard-shape checks',
     'text': ('Decides that what to_string writes is what from_string\'s patterns read (same literals, same field order, same '
